@@ -598,6 +598,57 @@ def count_start(mod, attr):
     return c[0].value.args[0].value
 
 
+def update_passes(mod, cls, meth):
+    """the update callback `cls.meth(self, obj, where)` of an unslicer: subscribed with addCallback(self.meth, ...) to the
+    child Deferred itself somewhere in the class, obj never re-bound; -> True if every path ends in `return obj`, False if
+    some path ends without a value / with None; other forms are not recognised"""
+    fn = P.find_def(mod, "%s.%s" % (cls, meth))
+    params = [a.arg for a in fn.args.args]
+    if len(params) != 3 or params[0] != "self" or fn.args.vararg or fn.args.kwarg or fn.args.kwonlyargs:
+        raise P.Untranslatable("%s.%s: expected (self, obj, where), found %r" % (cls, meth, params))
+    obj = params[1]
+    for n in ast.walk(fn):
+        if isinstance(n, (ast.Name,)) and n.id == obj and not isinstance(n.ctx, ast.Load):
+            raise P.Untranslatable("%s.%s re-binds its argument %s" % (cls, meth, obj))
+        if isinstance(n, (ast.Yield, ast.YieldFrom, ast.Await, ast.Lambda)) or (isinstance(n, ast.FunctionDef) and n is not fn):
+            raise P.Untranslatable("%s.%s: unrecognised construct %s" % (cls, meth, type(n).__name__))
+    subs = 0
+    c = P.find_class(mod, cls)
+    for n in ast.walk(c):
+        if isinstance(n, ast.Call) and isinstance(n.func, ast.Attribute) and n.func.attr == "addCallback" and n.args \
+                and ast.unparse(n.args[0]) == "self." + meth:
+            subs += 1
+    if subs == 0:
+        raise P.Untranslatable("%s no longer subscribes self.%s to the child's Deferred with addCallback" % (cls, meth))
+
+    def ends(body):
+        """-> set of the ways control can leave `body`: 'obj' (return obj), 'none' (return / return None / falls off the end of
+        the function), 'next' (falls through to the following statement)"""
+        out = {"next"}
+        for st in body:
+            if "next" not in out:
+                break                       # (unreachable)
+            out.discard("next")
+            if isinstance(st, ast.Return):
+                if st.value is None or (isinstance(st.value, ast.Constant) and st.value.value is None):
+                    out.add("none")
+                elif isinstance(st.value, ast.Name) and st.value.id == obj:
+                    out.add("obj")
+                else:
+                    raise P.Untranslatable("%s.%s returns %s" % (cls, meth, ast.unparse(st.value)))
+            elif isinstance(st, ast.If):
+                out |= ends(st.body) | ends(st.orelse)
+            elif isinstance(st, (ast.For, ast.While, ast.Try, ast.With, ast.Raise, ast.Match)):
+                raise P.Untranslatable("%s.%s: unrecognised statement %s" % (cls, meth, type(st).__name__))
+            else:
+                out.add("next")
+        return out
+    e = ends(fn.body)
+    if "next" in e:
+        e.discard("next"); e.add("none")
+    return e == {"obj"}
+
+
 def generate():
     ref = P.load("referenceable.py")
     bro = P.load("broker.py")
@@ -632,6 +683,47 @@ def generate():
             raise P.Untranslatable("ReferenceableSlicer.slice no longer contains: " + frag)
     if src_sl.count("tracker.send()") != 1:
         raise P.Untranslatable("ReferenceableSlicer.slice calls tracker.send() %d times" % src_sl.count("tracker.send()"))
+
+    # ---- WHEN the long form (interface name + FURL) of a my-reference is sent: only inside `if firstTime:` (both slicers),
+    # or unconditionally; and the receiver uses interface name / URL only to construct a NEW tracker
+    forms = set()
+    for qual in ("ReferenceableSlicer.slice", "CallableSlicer.sliceBody"):
+        fn_ = P.find_def(ref, qual)
+        ifs = [n for n in ast.walk(fn_) if isinstance(n, ast.If) and ast.unparse(n.test) == "firstTime"]
+        inside = ast.unparse(ast.Module(body=ifs[0].body, type_ignores=[])) if len(ifs) == 1 and not ifs[0].orelse else ""
+        whole = ast.unparse(fn_)
+        want = ["url = tracker.getURL()", "if url:\n    yield six.ensure_binary(url)"]
+        if all(w in inside for w in want) and all(whole.count(w.split("\n")[0]) == 1 for w in want):
+            forms.add("LongWhenFirst")
+        elif not ifs and all(w.replace("\n    ", "\n        ") in whole or w in whole for w in want):
+            forms.add("LongAlways")
+        else:
+            raise P.Untranslatable("%s: cannot tell when the interface name / FURL of a my-reference is sent" % qual)
+    if len(forms) != 1:
+        raise P.Untranslatable("ReferenceableSlicer and CallableSlicer disagree about when the FURL is sent: %r" % sorted(forms))
+    out.append("(* when does a my-reference carry the interface name and the FURL (ReferenceableSlicer.slice, CallableSlicer.sliceBody) *)\n"
+               "Inductive longform := LongWhenFirst | LongAlways.\nDefinition myref_long_form : longform := %s." % forms.pop())
+    ru = ast.unparse(P.find_def(ref, "ReferenceUnslicer.receiveClose"))
+    if "tracker = self.broker.getTrackerForYourReference(self.clid, self.interfaceName, self.url)" not in ru:
+        raise P.Untranslatable("ReferenceUnslicer.receiveClose no longer passes interfaceName and url to getTrackerForYourReference")
+    gy = P.find_def(bro, "Broker.getTrackerForYourReference")
+    news = [n for n in ast.walk(gy) if isinstance(n, ast.If) and ast.unparse(n.test) == "not tracker"]
+    if len(news) != 1 or "tracker = trackerclass(self, clid, url, interfaceName)" not in ast.unparse(news[0]):
+        raise P.Untranslatable("getTrackerForYourReference: the tracker is no longer constructed from (clid, url, interfaceName) inside `if not tracker:`")
+    outside = copy.deepcopy(gy)
+    for n in ast.walk(outside):
+        if isinstance(n, ast.If) and ast.unparse(n.test) == "not tracker":
+            n.body = [ast.Pass()]
+    uses = [n for n in ast.walk(outside) if isinstance(n, ast.Name) and n.id in ("url", "interfaceName") and isinstance(n.ctx, ast.Load)
+            and not any(isinstance(a, ast.Assert) and n in ast.walk(a) for a in ast.walk(outside))]
+    # (outside the construction, url / interfaceName are only type-checked: `assert type(...)`, `if url is not None: assert ...`)
+    for n in uses:
+        ok_ = False
+        for a in ast.walk(outside):
+            if isinstance(a, ast.If) and n in ast.walk(a.test) and all(isinstance(b, ast.Assert) for b in a.body) and not a.orelse:
+                ok_ = True
+        if not ok_:
+            raise P.Untranslatable("getTrackerForYourReference uses %s outside the construction of a new tracker" % n.id)
 
     # ---- ReferenceableTracker.decref
     spec = dict(params={"count": P.Z}, ret=P.B, attrs={"refcount": P.Z}, returns_attrs=["refcount"])
@@ -843,6 +935,18 @@ def generate():
                       ("slicers/tuple.py", "TupleUnslicer.receiveClose")):
         if "AsyncAND(" not in ast.unparse(P.find_def(P.load(rel), qual)):
             raise P.Untranslatable("%s no longer waits for its children with AsyncAND" % qual)
+
+    # ---- one placeholder Deferred in several places.  A value the receiver cannot build yet (a tuple holding a gift) is handed
+    # to every parent that contains it -- directly, and again through each banana back-reference -- as ONE Deferred; each
+    # parent subscribes its update callback to that Deferred, and Twisted passes every callback what the previous one
+    # RETURNED.  Read per kind of parent: is the callback subscribed to the Deferred itself, and does it return its argument
+    # on every path (true) or can it end without returning it (false)?  Anything else fails closed.
+    for coqname, rel, cls, meth in (("list", "slicers/list.py", "ListUnslicer", "update"), ("tuple", "slicers/tuple.py", "TupleUnslicer", "update"),
+                                    ("set", "slicers/set.py", "SetUnslicer", "update"), ("dict", "slicers/dict.py", "DictUnslicer", "update"),
+                                    ("arg", "call.py", "ArgumentUnslicer", "updateChild")):
+        mod = P.load(rel)
+        out.append("(* %s.%s returns the resolved object to the next callback of the shared Deferred *)\n"
+                   "Definition update_passes_%s : bool := %s." % (cls, meth, coqname, "true" if update_passes(mod, cls, meth) else "false"))
 
     # ---- Broker.makeGift / remote_decgift: the gift table entry holds the proxy itself (a strong reference) next to the
     # count, from makeGift until the count returns to zero
